@@ -120,7 +120,17 @@ impl<C: Config, Q: Query> Snapshot<C, Q> {
         let timestamp = caller_information.timestamp();
         let query = query.clone();
 
+        // When the caller is cancelled this block is detached and completes
+        // on its own; `caller_information` is gone by then. The block
+        // therefore owns a clone of the guard: an input session must not
+        // start (and propagate dirtiness) while a value computed from the
+        // inputs of this epoch is still being published.
+        let active_computation_guard =
+            caller_information.clone_active_computation_guard();
+
         async move {
+            let _active_computation_guard = active_computation_guard;
+
             #[cfg(feature = "verif")]
             qbice_storage::verif::task_point(
                 "sp_guarded_begin",
